@@ -56,7 +56,7 @@ theorem gen_entry_points :
     Dtn7.Gen.C10.itemIsComplete =
       ["if !bi.Fragmented", "  return true", "parts, err := bi.bundleParts()",
        "return err == nil && bpv7.IsBundleReassemblable(parts)"] ∧
-    Dtn7.Gen.C10.itemLoadCalls = ["bi.bundleParts", "bpv7.ReassembleFragments"] := by decide
+    Dtn7.Gen.C10.itemLoadCalls = ["len", "bi.Parts[].Load", "bi.bundleParts", "bpv7.ReassembleFragments"] := by decide
 
 /-! ### Property theorems (model = the code after the repairs: `maxEnd = true`) -/
 
